@@ -16,6 +16,7 @@ import (
 	"strings"
 	"sync/atomic"
 	"time"
+	"unicode/utf8"
 )
 
 // GoFakeS3 implements HTTP handlers for processing S3 requests and returning
@@ -648,6 +649,10 @@ func (g *GoFakeS3) createObjectBrowserUpload(bucket string, w http.ResponseWrite
 		// An object without a key could be listed but never be read or deleted
 		// (the bucket would not empty again):
 		return ErrorInvalidArgument("key", key, "The key of the object must not be empty.")
+	}
+	if !utf8.ValidString(key) {
+		// (see routeBase)
+		return ErrorInvalidArgument("key", "", "The key is not valid UTF-8.")
 	}
 
 	g.log.Print(LogInfo, "(BUC)", bucket)
